@@ -106,7 +106,9 @@ def build_text(prog):
         # a cached def with a keyword-only argument after *varargs, whose own name begins with "render_"
         lines.append('<%def name="render_k(l, *c, s=\'-\')" cached="True">${tick("k")}k:${v}:${l}${s}${s.join(c)}</%def>')
     nattr = ' cached="True"' if "n" in c else ""
-    lines.append('<%%def name="o()">o[<%%def name="n()"%s>${tick("n")}n:${v}</%%def>${n()}]</%%def>' % nattr)
+    # the nested def is called while another buffer is open (a filtered anonymous block): what it writes - freshly or
+    # from the cache - belongs to that buffer
+    lines.append('<%%def name="o()">o[<%%def name="n()"%s>${tick("n")}n:${v}</%%def><%%block filter="tagf">${n()}</%%block>]</%%def>' % nattr)
     battr = (' cached="True"' + (sect_args if "d" not in c else "")) if "b" in c else ""
     aattr = ' cached="True"' if "anon" in c else ""
     body = 'B:${tick("body")}${v}|${d()}|${d("y")}|${o()}|<%%block name="b"%s>${tick("b")}b:${v}</%%block>|' % battr
@@ -239,7 +241,7 @@ class Model:
                         self.store["render_render_k"] = (out, tag)
                     extra = out + "|"
             parts.append(anon())
-            return self.lead + self.tag + "%s|%s|%s|o[%s]|%s|%s\n%s" % (v, parts[0], parts[1], parts[2], parts[3], extra, parts[4])
+            return self.lead + self.tag + "%s|%s|%s|o[f[%s]]|%s|%s\n%s" % (v, parts[0], parts[1], parts[2], parts[3], extra, parts[4])
 
         return self.cached_run("page", "render_body", tag, body)
 
